@@ -108,6 +108,9 @@ def _child(case: dict[str, Any], want: str, scratch: str) -> dict[str, Any]:  # 
     from pynguin.instrumentation.machinery import install_import_hook
     from pynguin.instrumentation.tracer import SubjectProperties
 
+    import gc
+
+    gc.disable()  # short-lived child: a collection would only touch (and thereby copy) the parent's pages
     res: dict[str, Any] = {"failures": [], "labels": [], "excluded": 0, "nontrivial": False, "windows": 0,
                            "inconclusive": None}
     model = case["module"]
@@ -190,16 +193,44 @@ def _child(case: dict[str, Any], want: str, scratch: str) -> dict[str, Any]:  # 
 
 
 def _map_code_objects(ctx: dict[str, Any]) -> bool:
-    """Registered code object id i  <->  i-th code object of the original module (pre-order through co_consts)."""
-    sp, codes, res = ctx["sp"], ctx["codes"], ctx["res"]
-    ids = sorted(sp.existing_code_objects)
-    if ids != list(range(len(codes))):
+    """Registered code object id -> code object of the original module.
+
+    Both trees are walked from the module code object; the registered children of a code object (registration
+    order = order in ``co_consts``) are matched with the code constants of the original by (name, first line),
+    keeping the order.  Originals without a partner are code objects that exist only in dead code (pynguin
+    re-assembles the parent without them); they simply have no goals.
+    """
+    from types import CodeType
+
+    sp, res = ctx["sp"], ctx["res"]
+    metas = sp.existing_code_objects
+    roots = [i for i, m in metas.items() if m.parent_code_object_id is None]
+    if len(roots) != 1:
         res["inconclusive"] = "code-object-mapping"
         return False
-    for i in ids:
-        if sp.existing_code_objects[i].code_object.co_name != codes[i].co_name:
-            res["inconclusive"] = "code-object-mapping"
-            return False
+    mapping: dict[int, Any] = {}
+
+    def walk(cid: int, orig: Any) -> bool:
+        mapping[cid] = orig
+        children = sorted(i for i, m in metas.items() if m.parent_code_object_id == cid)
+        originals = [c for c in orig.co_consts if isinstance(c, CodeType)]
+        used: set[int] = set()
+        for child in children:
+            code = metas[child].code_object
+            for pos, cand in enumerate(originals):
+                if pos not in used and (cand.co_name, cand.co_firstlineno) == (code.co_name, code.co_firstlineno):
+                    used.add(pos)
+                    if not walk(child, cand):
+                        return False
+                    break
+            else:
+                return False
+        return True
+
+    if not walk(roots[0], ctx["codes"][0]):
+        res["inconclusive"] = "code-object-mapping"
+        return False
+    ctx["codes"] = mapping
     return True
 
 
@@ -233,6 +264,10 @@ def _check_lines(ctx: dict[str, Any], window: dict[str, Any], trace: Any) -> Non
             continue
         reported.add(ln)
     lo, hi = obs.lines_lo(), obs.lines_hi()
+    if not sp.existing_lines and len(lo) >= 2 and window["what"] == "import":
+        # Not registration completeness (C08): only "a module that executes lines has line goals at all".
+        res["failures"].append(["line|no-line-goal-registered-at-all",
+                                f"module execution ran lines {sorted(lo)[:8]} but existing_lines is empty"])
     missing = sorted((lo & coverable) - reported)
     extra = sorted(reported - hi)
     for ln in missing[:3]:
@@ -349,6 +384,14 @@ def _check_branches(ctx: dict[str, Any], window: dict[str, Any], trace: Any) -> 
                      f"executed={executed}\n{_numbered(ctx, j['line'] or 1, 25)}")
             op = j["opname"]
             before = len(res["failures"])
+            reports = trace.executed_predicates.get(pid, 0)
+            if op != "FOR_ITER" and reports > obs.branch_count(code, j["offset"]):
+                # The tracer is told the operands *before* the comparison runs; here the comparison itself raised in the
+                # original run (the jump was reached less often than an outcome was reported).
+                if (rep_true and not exp_true) or (rep_false and not exp_false):
+                    res["failures"].append([f"branch|{j['prev']}+{op}|outcome-reported-although-comparison-raised", where])
+                res["labels"].append("comparison-raised-before-jump:" + str(j["prev"]))
+                continue
             if (exp_true, exp_false) == (rep_false, rep_true) and exp_true != exp_false:
                 res["failures"].append([f"branch|{op}|outcome-reported-for-opposite-branch", where])
             else:
@@ -424,6 +467,18 @@ def _preload() -> None:
     import pynguin.instrumentation.tracer  # noqa: F401
     import pynguin.testcase.execution  # noqa: F401
 
+    global _FROZEN  # noqa: PLW0603
+    if not _FROZEN:
+        # Keep copy-on-write page faults in the forked children low: no cyclic-GC pass over the parent's heap.
+        import gc
+
+        gc.collect()
+        gc.freeze()
+        _FROZEN = True
+
+
+_FROZEN = False
+
 
 def evaluate_case(case: dict[str, Any], want: str) -> Outcome:
     """Run one case in a forked child and convert the result."""
@@ -436,7 +491,8 @@ def evaluate_case(case: dict[str, Any], want: str) -> Outcome:
     out.labels.extend("has:" + f for f in feats)
     out.labels.append("metrics:" + "+".join(sorted(case["metrics"])))
     if kind == "signal":
-        out.fail("interpreter-crash|signal", f"child killed by signal {val}\n{pygen.render(case['module'])[:1500]}")
+        out.fail("interpreter-crash|signal|metrics=" + "+".join(sorted(case["metrics"])),
+                 f"child killed by signal {val}\n{pygen.render(case['module'])[:1500]}")
         return out
     if kind == "timeout":
         out.inconclusive = "child-timeout"
